@@ -4,6 +4,7 @@ import (
 	"fmt"
 	"go/token"
 	"go/types"
+	"sort"
 	"strings"
 
 	"golang.org/x/tools/go/ssa"
@@ -57,11 +58,29 @@ func (e *Exec) call(fr *Frame, st *State, ins ssa.Instruction, cc *ssa.CallCommo
 		if sp.Ghost {
 			return e.ghostCall(st, sp, callee, args, rtyp)
 		}
+		if sp.Uninterp {
+			e.assumed["assumed: result of "+sp.Name+" is a function of its arguments only (uninterpreted)"] = true
+			return e.ufCall(st, callee, args, rtyp)
+		}
 		return e.callByContract(fr, st, ins, sp, callee, args, rtyp)
 	}
 	if e.eng.isPureExternal(name) || e.eng.isNoop(name) {
 		if e.pure > 0 {
 			return e.ufCall(st, callee, args, rtyp)
+		}
+		if e.eng.isDeterministicExternal(name) {
+			if _, isTuple := rtyp.(*types.Tuple); !isTuple {
+				allTerms := true
+				for _, a := range args {
+					if a.T == nil {
+						allTerms = false
+					}
+				}
+				if allTerms {
+					e.assumed["external function treated as a deterministic function of its arguments: "+name] = true
+					return e.ufCall(st, callee, args, rtyp)
+				}
+			}
 		}
 		return e.unknownCall(fr, st, ins, name, rtyp, args)
 	}
@@ -90,7 +109,7 @@ func (e *Exec) call(fr *Frame, st *State, ins ssa.Instruction, cc *ssa.CallCommo
 					if e.frameOn && !e.frameOff {
 						e.wholeArrayFrame(st, n)
 					}
-					e.heapSet(st, n, e.c.Fresh(n+"@call", srt))
+					e.heapSet(st, n, e.c.Fresh(n+"@call", e.fixSort(srt)))
 				}
 				e.bumpAlloc(st)
 				if t, ok := rtyp.(*types.Tuple); ok && t.Len() == 0 {
@@ -470,6 +489,32 @@ func (e *Exec) evalClauseAt(fr *Frame, cl Clause, st *State, results []Val) *Ter
 			}
 			args = append(args, results[p.Index])
 			oldArgs = append(oldArgs, results[p.Index])
+		case pkRangeIdx:
+			var v Val
+			found := false
+			for _, li := range fr.loops {
+				if li.ordinal != cl.LoopOrd {
+					continue
+				}
+				for _, ins := range li.head.Instrs {
+					if phi, ok := ins.(*ssa.Phi); ok && phi.Comment == "rangeindex" {
+						v, found = fr.vals[phi], true
+					}
+					// NaiveForm: the hidden index is a local cell named "rangeindex", loaded first thing in the head
+					if ld, ok := ins.(*ssa.UnOp); ok && ld.Op == token.MUL && !found {
+						if a, ok := ld.X.(*ssa.Alloc); ok && a.Comment == "rangeindex" {
+							if av, ok := fr.allocs[a]; ok {
+								v, found = e.load(st, av, deref(a.Type())), true
+							}
+						}
+					}
+				}
+			}
+			if !found {
+				e.fail("clause %s: rangeidx used but loop %d is not a range-over-slice loop", cl.Label, cl.LoopOrd)
+			}
+			args = append(args, v)
+			oldArgs = append(oldArgs, v)
 		case pkLocal:
 			a := e.eng.localAlloc(fr.fn, p)
 			if a == nil {
@@ -488,7 +533,20 @@ func (e *Exec) evalClauseAt(fr *Frame, cl Clause, st *State, results []Val) *Ter
 			oldArgs = append(oldArgs, v)
 		}
 	}
+	// candidate witnesses for existentials: current values of the function's integer locals
+	savedW := e.witness
+	e.witness = nil
+	for a, av := range fr.allocs {
+		if av.P == nil || av.P.kind != pCell || !isInteger(deref(a.Type())) {
+			continue
+		}
+		if t, ok := st.cells[av.P.cell]; ok && !t.bound && len(e.witness) < 8 {
+			e.witness = append(e.witness, t)
+		}
+	}
+	sort.Slice(e.witness, func(i, j int) bool { return e.witness[i].id < e.witness[j].id })
 	v := e.evalPure(cl.Wrapper, args, oldArgs, nil, st, fr.entry)
+	e.witness = savedW
 	if v.T == nil {
 		e.fail("clause %s did not evaluate to a term", cl.Label)
 	}
@@ -571,7 +629,7 @@ func (e *Exec) callByContract(fr *Frame, st *State, ins ssa.Instruction, sp *Fun
 				if e.frameOn && !e.frameOff {
 					e.wholeArrayFrame(st, n)
 				}
-				e.heapSet(st, n, c.Fresh(n+"@call", srt))
+				e.heapSet(st, n, c.Fresh(n+"@call", e.fixSort(srt)))
 			}
 			e.bumpAlloc(st)
 		}
@@ -646,7 +704,23 @@ func (e *Exec) intrinsic(fr *Frame, st *State, ins ssa.Instruction, callee *ssa.
 		if forall {
 			return Val{T: c.Forall([]*Term{bv}, c.Implies(guard, body))}
 		}
-		return Val{T: c.Exists([]*Term{bv}, c.And(guard, body))}
+		ex := c.Exists([]*Term{bv}, c.And(guard, body))
+		// witness hints: instances of the body at integer locals of the verified function. Each disjunct
+		// implies the existential, so the formula is equivalent; it only helps the solver.
+		if lo != nil && len(e.witness) > 0 && e.noWitness == 0 {
+			alts := []*Term{ex}
+			e.noWitness++
+			for _, w := range e.witness {
+				if w.sort != bv.sort || w.bound {
+					continue
+				}
+				b := e.callClosure(clo, []Val{{T: w}}, st, fr).T
+				alts = append(alts, c.And(c.Le(lo, w), c.Lt(w, hi), b))
+			}
+			e.noWitness--
+			return Val{T: c.Or(alts...)}
+		}
+		return Val{T: ex}
 	}
 	switch base {
 	case "__forall":
@@ -733,6 +807,14 @@ func (e *Exec) intrinsic(fr *Frame, st *State, ins ssa.Instruction, callee *ssa.
 			e.fail("__modall on %s", cc.Args[0].Type())
 		}
 		return Val{}, true
+	case "__has":
+		mt, ok := cc.Args[0].Type().Underlying().(*types.Map)
+		if !ok {
+			e.fail("__has on a non-map")
+		}
+		dn, _, _, ks, _ := e.mapArrs(mt)
+		dom := c.Select(e.heapGet(st, dn, arrSort("Int", arrSort(ks, "Bool"))), args[0].T)
+		return Val{T: c.Select(dom, args[1].T)}, true
 	case "__cases":
 		// __cases(x, v1, v2, ...): always true; asks the next obligation to be split by x == vi
 		h := &caseHint{x: args[0].T}
